@@ -168,6 +168,35 @@ func (f *FuncVC) applyMod(st *State, m resolvedMod, src string) {
 		f.havocAll(st, "call")
 		return
 	}
+	if m.kind == "heap" {
+		if f.con != nil && f.con.HasMod {
+			okk := false
+			for _, mm := range f.modTargets {
+				if mm.kind == "all" || (mm.kind == "heap" && mm.heap == m.heap) {
+					okk = true
+				}
+			}
+			if !okk {
+				f.oblige(st, "frame", src+" modifies "+m.text, "false")
+			}
+		}
+		names := map[string]string{}
+		for n, s := range f.universe {
+			names[n] = s
+		}
+		for n, s := range f.heapSorts {
+			names[n] = s
+		}
+		for _, n := range sortedKeys(names) {
+			if prefixCovers(m.heap, n) {
+				fr := f.sc.fresh(n + "@hv")
+				f.sc.declare(fr, names[n])
+				f.heapSorts[n] = names[n]
+				st.heaps[n] = fr
+			}
+		}
+		return
+	}
 	// frame check against our own clause
 	if f.con != nil && f.con.HasMod && m.kind != "ghost" {
 		ok := []string{cmp(">=", m.obj, f.wmEntry)}
@@ -299,7 +328,7 @@ func (f *FuncVC) callEffects(x *ssa.Call, hs *havocSet) {
 				hs.prefixes[m.heap] = true
 			case "field":
 				hs.prefixes[m.heap+m.field] = true
-			case "elems", "ghost":
+			case "elems", "ghost", "heap":
 				hs.prefixes[m.heap] = true
 			}
 		}
@@ -493,6 +522,9 @@ func (f *FuncVC) frameAppend(st *State, s *Val, fits string, et types.Type) {
 		}
 		if m.kind == "elems" && m.heap == heap {
 			ok = append(ok, eq(s.Fs[0].T, m.obj))
+		}
+		if m.kind == "heap" && m.heap == heap {
+			return
 		}
 	}
 	// appending zero elements writes nothing
